@@ -355,6 +355,19 @@ func registerHarnessAPI(e *Exec) {
 			id := e.alloc(st, mo)
 			return ret(st, MapV{Obj: id})
 		},
+		"vTimeAny": func(e *Exec, st *State, fn *ssa.Function, args []Value) []Outcome {
+			// an arbitrary instant (wall clock reading without monotonic part), not ordered w.r.t. time.Now()
+			name := e.nondetName(st, e.argString(args[0]))
+			ext := e.tc.Var(name+".sec", 64)
+			nsec := e.tc.Var(name+".nsec", 64)
+			lo := e.tc.Int(62135596800)
+			hi := e.tc.Int(62135596800 + 1<<33)
+			st.assume(e.tc.And(e.tc.Sle(lo, ext), e.tc.Sle(ext, hi)))
+			st.assume(e.tc.Ult(nsec, e.tc.Int(1000000000)))
+			e.addInput(st, InputDecl{Name: name + ".sec", Kind: "int", T: ext})
+			e.addInput(st, InputDecl{Name: name + ".nsec", Kind: "int", T: nsec})
+			return ret(st, StructV{[]Value{BV{nsec}, BV{ext}, nilPtr}})
+		},
 		"vLog": func(e *Exec, st *State, fn *ssa.Function, args []Value) []Outcome {
 			return ret(st)
 		},
